@@ -268,9 +268,9 @@ class ObjectRewriter(FileRewriter):
                                         delete=False,
                                         encoding=self.encoding_out) as outfile:
                     self.object_representer.dump(outfile, self.formatter(obj))
-            except Exception:
-                # formatting or serialization failed: don't leave the
-                # partially written temp file behind.
+            except BaseException:
+                # formatting or serialization failed or was interrupted: don't
+                # leave the partially written temp file behind.
                 if outfile:
                     remove_temp_file(outfile.name)
                 raise
@@ -315,50 +315,44 @@ class StreamRewriter(FileRewriter):
             None.
 
         """
-        is_in_place_edit = False
         if is_same_file(in_path, out_path):
             logger.debug(
                 "in path and out path are the same file. writing to temp "
                 "file and then replacing in path with the temp file.")
             out_path = None
-            is_in_place_edit = True
 
         logger.debug("opening source file: %s", in_path)
-        with open(in_path, encoding=self.encoding_in) as infile:
-            if out_path:
+        if out_path:
+            with open(in_path, encoding=self.encoding_in) as infile:
                 logger.debug(
                     "opening destination file for writing: %s", out_path)
                 # at this point out dir must exist
                 with open(out_path, 'w',
                           encoding=self.encoding_out) as outfile:
                     outfile.writelines(self.formatter(infile))
-                return
-            else:
-                logger.debug("opening temp file for writing...")
-                outfile = None
-                try:
-                    with NamedTemporaryFile(
-                            mode='w+t',
-                            dir=os.path.dirname(in_path),
-                            delete=False,
-                            encoding=self.encoding_out) as outfile:
-                        outfile.writelines(self.formatter(infile))
-                except Exception:
-                    # formatting or a write failed part-way: don't leave the
-                    # partially written temp file behind.
-                    if outfile:
-                        remove_temp_file(outfile.name)
-                    raise
+            return
 
-                is_in_place_edit = True
+        logger.debug("opening temp file for writing...")
+        outfile = None
+        try:
+            with open(in_path, encoding=self.encoding_in) as infile:
+                with NamedTemporaryFile(
+                        mode='w+t',
+                        dir=os.path.dirname(in_path),
+                        delete=False,
+                        encoding=self.encoding_out) as outfile:
+                    outfile.writelines(self.formatter(infile))
+        except BaseException:
+            # formatting, a write or closing either file failed part-way, or
+            # was interrupted: don't leave the partially written temp file
+            # behind.
+            if outfile:
+                remove_temp_file(outfile.name)
+            raise
 
         # only replace infile AFTER it's closed, outside the with.
-        # pragma exclude because func actually returns on 287 in if out_path,
-        # and cov not smart enough to realize that !is_in_place_edit won't ever
-        # happen here (the function will have exited already)
-        if is_in_place_edit:    # pragma: no branch
-            logger.debug("moving temp file to: %s", in_path)
-            move_temp_file(outfile.name, infile.name)
+        logger.debug("moving temp file to: %s", in_path)
+        move_temp_file(outfile.name, infile.name)
 
 # endregion Rewriters
 
@@ -623,7 +617,7 @@ def move_temp_file(src, dest):
     """
     try:
         move_file(src, dest)
-    except Exception:
+    except BaseException:
         remove_temp_file(src)
         raise
 
